@@ -23,7 +23,9 @@ type Guard struct {
 // for every dominator D ending in `if c`, if exactly one successor edge of D can lead to b
 // without passing through D again (the other cannot reach b avoiding D), c is known with
 // the corresponding polarity at b.
-func guardsOf(b *ssa.BasicBlock) []Guard {
+func guardsOf(b *ssa.BasicBlock) []Guard { return guardsOfRec(b, map[*ssa.Phi]bool{}) }
+
+func guardsOfRec(b *ssa.BasicBlock, seen map[*ssa.Phi]bool) []Guard {
 	var out []Guard
 	for d := b.Idom(); d != nil; d = d.Idom() {
 		iff, ok := d.Instrs[len(d.Instrs)-1].(*ssa.If)
@@ -37,10 +39,62 @@ func guardsOf(b *ssa.BasicBlock) []Guard {
 		}
 		if r0 && !r1 {
 			out = append(out, Guard{Cond: iff.Cond, Sense: true, If: iff})
+			out = append(out, impliedGuards(iff.Cond, true, iff, seen)...)
 		} else if r1 && !r0 {
 			out = append(out, Guard{Cond: iff.Cond, Sense: false, If: iff})
+			out = append(out, impliedGuards(iff.Cond, false, iff, seen)...)
 		}
 	}
+	return out
+}
+
+// impliedGuards: what else is known when the boolean v has the value sense. A named boolean
+// (`c := a == nil || b; if c {`) reaches the branch as a phi over the short-circuit edges; when the
+// constant inputs rule out every edge but one, the value came in over that edge: its input has the
+// value sense, and everything known at the end of that predecessor (its own guards and the branch
+// it was left by) holds as well. This makes `c := A && B; if c` the same guard as `if A && B`.
+func impliedGuards(v ssa.Value, sense bool, at *ssa.If, seen map[*ssa.Phi]bool) []Guard {
+	for {
+		if u, ok := v.(*ssa.UnOp); ok && u.Op == token.NOT {
+			v = u.X
+			sense = !sense
+			continue
+		}
+		break
+	}
+	phi, ok := v.(*ssa.Phi)
+	if !ok || !isBool(phi.Type()) || seen[phi] {
+		return nil
+	}
+	seen[phi] = true
+	live := -1
+	for i, e := range phi.Edges {
+		if k, ok := e.(*ssa.Const); ok && k.Value != nil && k.Value.Kind() == constant.Bool {
+			if constant.BoolVal(k.Value) != sense {
+				continue // this edge delivers the other value
+			}
+		}
+		if live >= 0 {
+			return nil // two possible ways in: a disjunction, nothing is implied for certain
+		}
+		live = i
+	}
+	if live < 0 {
+		return nil
+	}
+	var out []Guard
+	pred := phi.Block().Preds[live]
+	e := phi.Edges[live]
+	if _, isK := e.(*ssa.Const); !isK {
+		out = append(out, Guard{Cond: e, Sense: sense, If: at})
+		out = append(out, impliedGuards(e, sense, at, seen)...)
+	}
+	if iff, ok := pred.Instrs[len(pred.Instrs)-1].(*ssa.If); ok && pred.Succs[0] != pred.Succs[1] {
+		s := pred.Succs[0] == phi.Block()
+		out = append(out, Guard{Cond: iff.Cond, Sense: s, If: at})
+		out = append(out, impliedGuards(iff.Cond, s, at, seen)...)
+	}
+	out = append(out, guardsOfRec(pred, seen)...)
 	return out
 }
 
@@ -1588,4 +1642,75 @@ func pathToExitAvoidingUnder(from ssa.Instruction, pass func(ssa.Instruction) bo
 		}
 	}
 	return nil
+}
+
+// effectiveBranch: the condition that decides where control goes after block b: the condition of
+// its If, or, when b only jumps into the merge block of a named boolean (`c := A && B; if c {`:
+// the right operand's block jumps to a block that starts with the phi of c and branches on it), the
+// value b contributes to that phi.
+func effectiveBranch(b *ssa.BasicBlock) ssa.Value {
+	switch last := b.Instrs[len(b.Instrs)-1].(type) {
+	case *ssa.If:
+		return last.Cond
+	case *ssa.Jump:
+		j := b.Succs[0]
+		iff, ok := j.Instrs[len(j.Instrs)-1].(*ssa.If)
+		if !ok {
+			return nil
+		}
+		v := iff.Cond
+		for {
+			if u, ok := v.(*ssa.UnOp); ok && u.Op == token.NOT {
+				v = u.X
+				continue
+			}
+			break
+		}
+		phi, ok := v.(*ssa.Phi)
+		if !ok || phi.Block() != j {
+			return nil
+		}
+		for i, p := range j.Preds {
+			if p == b {
+				return phi.Edges[i]
+			}
+		}
+	}
+	return nil
+}
+
+// pathCond: the condition of the branch ending block b as it reads on a path that entered b from
+// pred: negations are stripped (neg reports an odd number of them) and a phi of b itself - a named
+// boolean such as `c := A && B; if c {` - is replaced by the value it receives over the edge from
+// pred (a constant when the short-circuit already decided it).
+func pathCond(iff *ssa.If, pred *ssa.BasicBlock) (cond ssa.Value, neg bool) {
+	b := iff.Block()
+	cond = iff.Cond
+	for {
+		if u, ok := cond.(*ssa.UnOp); ok && u.Op == token.NOT {
+			cond, neg = u.X, !neg
+			continue
+		}
+		if phi, ok := cond.(*ssa.Phi); ok && phi.Block() == b && pred != nil {
+			moved := false
+			for i, p := range b.Preds {
+				if p == pred {
+					cond, moved = phi.Edges[i], true
+					break
+				}
+			}
+			if moved {
+				continue
+			}
+		}
+		return
+	}
+}
+
+// constBool: the value of a boolean constant.
+func constBool(v ssa.Value) (bool, bool) {
+	if k, ok := v.(*ssa.Const); ok && k.Value != nil && k.Value.Kind() == constant.Bool {
+		return constant.BoolVal(k.Value), true
+	}
+	return false, false
 }
